@@ -71,6 +71,46 @@ pub fn run(name: &str) -> Option<bool> {
             );
             matches!(out, Outcome::Panic(_))
         }
+        // C02: `-é=v` was split in the middle of the two-byte name and became a positional word
+        "nonascii_short_eq" => {
+            let o = OptSpec::plain(Spec::Seq(vec![arg(1, Names::short('é'), Ty::Str)]));
+            let p = build_options(&o);
+            let out = crate::outcome::run(&p, &[b"-\xc3\xa9=v".to_vec()]);
+            out != Outcome::Value(V::Tuple(vec![V::field(1, V::Bytes(b"v".to_vec()))]))
+        }
+        // C02: a short letter of a hidden item is unknown to the tokenizer, so `-ab` (b hidden)
+        // and `-bVALUE` are read as plain words while `-a -b` / `-b VALUE` work
+        "hidden_short_cluster" => {
+            let o = OptSpec::plain(Spec::Seq(vec![
+                item(1, Names::short('a'), Leaf::Switch),
+                Spec::wrap(W::Hide, 3, item(2, Names::short('b'), Leaf::Switch)),
+            ]));
+            let p = build_options(&o);
+            let split = crate::outcome::run(&p, &bytes(&["-a", "-b"]));
+            let cluster = crate::outcome::run(&p, &bytes(&["-ab"]));
+            split.is_value() && split != cluster
+        }
+        // C02: `-n<bytes>` with bytes that are not valid UTF-8 is read as a word although
+        // `-n=<bytes>` delivers them to an OsString argument
+        "short_joined_non_utf8" => {
+            let o = OptSpec::plain(Spec::Seq(vec![arg(1, Names::short('n'), Ty::Os)]));
+            let p = build_options(&o);
+            let eq = crate::outcome::run(&p, &[b"-n=v\xff".to_vec()]);
+            let joined = crate::outcome::run(&p, &[b"-nv\xff".to_vec()]);
+            eq.is_value() && eq != joined
+        }
+        // C02: `-abK=V` (flags a, b, argument K with attached value `=V`... i.e. a value containing
+        // `=`) is read as `-a=bK=V`
+        "cluster_joined_value_with_eq" => {
+            let o = OptSpec::plain(Spec::Seq(vec![
+                item(1, Names::short('a'), Leaf::Switch),
+                arg(2, Names::short('k'), Ty::Str),
+            ]));
+            let p = build_options(&o);
+            let split = crate::outcome::run(&p, &bytes(&["-a", "-kx=y"]));
+            let cluster = crate::outcome::run(&p, &bytes(&["-akx=y"]));
+            split.is_value() && split != cluster
+        }
         _ => return None,
     })
 }
